@@ -56,7 +56,13 @@ def install(w):
                          "source_location.line <= 1 + nlt(source.body, len(source.body))",
                          "1 <= source_location.column",
                          "source.location_offset.line >= 1", "source.location_offset.column >= 1"],
-               ensures=[], modifies=[], props={"C10"})
+               ensures=[], modifies=[],
+               # a configured location offset: the rendered line is shifted by the offset's line, the
+               # rendered column by the offset's column on the first line OF THE SOURCE only
+               exit_post=["line_num == source_location.line + source.location_offset.line - 1",
+                          "column_num == source_location.column + ite(source_location.line == 1,"
+                          " source.location_offset.column - 1, 0)"],
+               props={"C10"})
     w.contract(f"{P}.print_location", params={"location": "obj:Location"}, returns="str",
                requires=["0 <= location.start",
                          "not midCRLF(location.source.body, location.start)",
